@@ -268,12 +268,21 @@ def run_side(binary, cases, timeout=None, shards=NPROC):
         todo = list(ix)
         hangs = 0
         while todo:
-            outs, st = _run_side(binary, [cases[i] for i in todo], timeout if hangs == 0 else min(timeout, 30))
+            # the time limit of a shard grows with its size; it only exists to get out of a hang
+            outs, st = _run_side(binary, [cases[i] for i in todo], (timeout + 0.05 * len(todo)) if hangs == 0 else min(timeout, 30))
             n = min(len(outs), len(todo))
             for i, o in zip(todo[:n], outs[:n]):
                 results[i] = o
             if n == len(todo):
                 return
+            if st == 'timeout' and not FAST_ABORT:
+                # a slow (loaded) machine is not a hang: the case the shard stopped at is run once more ALONE with the
+                # full time limit; only if it does not finish then either is it reported as hanging
+                o1, st1 = _run_side(binary, [cases[todo[n]]], timeout)
+                if st1 == 0 and len(o1) == 1:
+                    results[todo[n]] = o1[0]
+                    todo = todo[n + 1:]
+                    continue
             results[todo[n]] = '(abort %s)' % st
             todo = todo[n + 1:]
             if st == 'timeout':
